@@ -600,6 +600,14 @@ func ruleChildSignOn(c *Ctx) {
 					}
 				}
 			}
+			// the registration may live in a private helper that returns the parent to sign off from
+			// (or nil): every non-nil result of the helper must be on its own AddTasks-returned-nil edge
+			if call, isCall := resolve(stI.Val).(*ssa.Call); isCall && len(addTasks) == 0 {
+				if h := call.Call.StaticCallee(); h != nil && h.Pkg == f.Pkg && h.Blocks != nil && helperReturnsRegisteredParent(h) {
+					c.OK("R4", con, stI.Pos(), "the parent comes from "+fname(h)+", which hands it out only where AddTasks returned nil")
+					return
+				}
+			}
 			if len(addTasks) == 0 {
 				c.Bad("R4", con, stI.Pos(), "the scope keeps a parent to sign off from, but never registered a task on it — closing the child drives the parent's task counter negative")
 				return
@@ -865,4 +873,72 @@ func methodOnlyRunByOwnOnce(f *ssa.Function) bool {
 		})
 	}
 	return ok && uses > 0
+}
+
+// helperReturnsRegisteredParent: every return of h is nil or is made where an
+// AddTasks call of h is known to have returned nil.
+func helperReturnsRegisteredParent(h *ssa.Function) bool {
+	facts := factsFor(h)
+	var addTasks []*ssa.Call
+	for _, ci := range Calls(h) {
+		if ci.Method != nil && ci.Method.Name() == "AddTasks" {
+			if call, ok := ci.Instr.(*ssa.Call); ok {
+				addTasks = append(addTasks, call)
+			}
+		}
+	}
+	if len(addTasks) == 0 {
+		return false
+	}
+	okAll := true
+	var check func(v ssa.Value, fs factSet, depth int)
+	check = func(v ssa.Value, fs factSet, depth int) {
+		if depth > 6 {
+			okAll = false
+			return
+		}
+		if isNilConst(v) {
+			return
+		}
+		if p, ok := v.(*ssa.Phi); ok {
+			for i, e := range p.Edges {
+				check(e, factsOnEdge(facts, p.Block().Preds[i], p.Block()), depth+1)
+			}
+			return
+		}
+		if mi, ok := v.(*ssa.MakeInterface); ok {
+			check(mi.X, fs, depth+1)
+			return
+		}
+		for _, at := range addTasks {
+			if knownNilIn(fs, at, true) {
+				return
+			}
+		}
+		okAll = false
+	}
+	n := 0
+	for _, r := range returnsOf(h) {
+		if len(r.Results) == 0 {
+			return false
+		}
+		n++
+		b := r.Block()
+		v := resolve(r.Results[0])
+		if _, isPhi := v.(*ssa.Phi); isPhi {
+			check(v, facts.At(b), 0)
+		} else if !isNilConst(v) {
+			if !facts.HoldsOnAllEdges(b, func(fs factSet) bool {
+				for _, at := range addTasks {
+					if knownNilIn(fs, at, true) {
+						return true
+					}
+				}
+				return false
+			}) {
+				okAll = false
+			}
+		}
+	}
+	return okAll && n > 0
 }
